@@ -6,6 +6,7 @@ import ast
 from fdlstatic import cfg as cfg_lib
 from fdlstatic.ctx import Ctx, kwarg
 from fdlstatic.model import AnalysisError, unparse, walk_function, walk_stmts
+from fdlstatic import roles
 from fdlstatic.report import RuleSet
 from fdlstatic.rules import ownrule
 
@@ -229,25 +230,51 @@ def run(ctx: Ctx, rs: RuleSet, tier: str):
   rebinds = [unparse(g.stmt[n].value) for n in g.nodes()
              if isinstance(g.stmt[n], ast.Assign) and
              unparse(g.stmt[n].targets[0]) == fn]
-  ok_rebind = set(rebinds) <= {f'{fn}.__func__', f'method_type({fn})'}
+  # locals holding the method wrapper type: <v> = type(fn)
+  mtypes = roles.assigned_from(mk, lambda e: isinstance(e, ast.Call) and
+                               unparse(e) == f'type({fn})')
+  ok_rebind = set(rebinds) <= ({f'{fn}.__func__'} |
+                               {f'{t}({fn})' for t in mtypes})
   ctor = [c for c in ctx.calls(mk) if p.resolve(c.func, mk) ==
           f'{AC}.AutoConfig']
-  ok_ctor = len(ctor) == 1 and [unparse(a) for a in ctor[0].args[:2]] == [
-      fn, 'as_buildable']
+  # the second argument is the (checking wrapper around the) rewritten
+  # function object
+  rewritten = roles.assigned_from(mk, roles.call_of('types.FunctionType'))
+  ab_names = set(rewritten)
+  for nf_name, nf in mk.nested.items():
+    if any(isinstance(c.func, ast.Name) and c.func.id in rewritten
+           for c in ctx.calls(nf)):
+      ab_names.add(nf_name)
+  ok_ctor = (len(ctor) == 1 and len(ctor[0].args) >= 2 and
+             unparse(ctor[0].args[0]) == fn and
+             unparse(ctor[0].args[1]) in ab_names)
   rs.check(ok_rebind and ok_ctor, rule, f'{mk.qualname}:AutoConfig',
            f'AutoConfig({fn}, as_buildable, ...); {fn} rebound only by '
            f'{rebinds}', ctx.loc(mk, mk.node))
-  src = unparse(mk.node)
-  ok = (f'auto_config_fn.__defaults__ = {fn}.__defaults__' in src and
-        f'auto_config_fn.__kwdefaults__ = {fn}.__kwdefaults__' in src and
-        f'types.FunctionType(code, {fn}.__globals__, closure=closure)' in src)
+  ok = False
+  for st in walk_function(mk.node):
+    if isinstance(st, ast.Assign) and isinstance(st.value, ast.Call) and unparse(
+        st.value.func) == 'types.FunctionType' and len(st.value.args) >= 2:
+      new_fn = unparse(st.targets[0])
+      shares_globals = unparse(st.value.args[1]) == f'{fn}.__globals__'
+      has_closure = kwarg(st.value, 'closure') is not None
+      copied = {unparse(a.targets[0]): unparse(a.value)
+                for a in walk_function(mk.node) if isinstance(a, ast.Assign)}
+      ok = (shares_globals and has_closure and
+            copied.get(f'{new_fn}.__defaults__') == f'{fn}.__defaults__' and
+            copied.get(f'{new_fn}.__kwdefaults__') == f'{fn}.__kwdefaults__')
   rs.check(ok, rule, f'{mk.qualname}:function-object',
            'the rewritten function shares globals, defaults and keyword '
            'defaults with the original', ctx.loc(mk, mk.node))
   # as_buildable wrapper calls the rewritten function with its own arguments
   ab = mk.nested.get('as_buildable')
-  ok = ab is not None and any(
-      unparse(c) == 'auto_config_fn(*args, **kwargs)' for c in ctx.calls(ab))
+  ok = False
+  if ab is not None and ab.node.args.vararg and ab.node.args.kwarg:
+    va, kw = ab.node.args.vararg.arg, ab.node.args.kwarg.arg
+    ok = any(isinstance(c.func, ast.Name) and c.func.id in rewritten and
+             [unparse(a) for a in c.args] == [f'*{va}'] and
+             [(k.arg, unparse(k.value)) for k in c.keywords] == [(None, kw)]
+             for c in ctx.calls(ab))
   rs.check(ok, rule, f'{mk.qualname}:as_buildable',
            'the checking wrapper calls auto_config_fn(*args, **kwargs) and '
            'returns its output', ctx.loc(mk, mk.node))
@@ -407,15 +434,65 @@ def run(ctx: Ctx, rs: RuleSet, tier: str):
   rs.check(ok, rule, f'{ch.qualname}:inline',
            'always-inline auto_config functions are expanded through '
            'as_buildable', ctx.loc(ch, ch.node))
-  ok = (f'if {fparam} is functools.partial' in src and
-        '_make_partial(partial_cls, args[0], *args[1:], **kwargs)' in src)
+  va = ch.node.args.vararg.arg if ch.node.args.vararg else None
+  kw = ch.node.args.kwarg.arg if ch.node.args.kwarg else None
+
+  def _branch(target_text):
+    for n in walk_function(ch.node):
+      if isinstance(n, ast.If) and isinstance(n.test, ast.Compare) and len(
+          n.test.ops) == 1 and isinstance(n.test.ops[0], ast.Is) and unparse(
+              n.test.left) == fparam and unparse(
+                  n.test.comparators[0]) == target_text:
+        return n
+    return None
+
+  def _partial_cls_expr(e):
+    # experimental_config_types.partial_cls, directly or through a local
+    return any(isinstance(x, ast.Attribute) and x.attr == 'partial_cls'
+               for x in roles.expand(ch, e, 2))
+
+  def _make_partial_call(br):
+    rets = [r for r in br.body if isinstance(r, ast.Return)]
+    if len(rets) != 1 or not isinstance(rets[0].value, ast.Call):
+      return None
+    c = rets[0].value
+    if unparse(c.func) != '_make_partial' or len(c.args) != 3:
+      return None
+    if not (_partial_cls_expr(c.args[0]) and unparse(c.args[1]) == f'{va}[0]'
+            and isinstance(c.args[2], ast.Starred) and len(c.keywords) == 1 and
+            c.keywords[0].arg is None):
+      return None
+    return c
+
+  br = _branch('functools.partial')
+  c = _make_partial_call(br) if br is not None else None
+  ok = (c is not None and unparse(c.args[2].value) == f'{va}[1:]' and
+        unparse(c.keywords[0].value) == kw)
   rs.check(ok, rule, f'{ch.qualname}:functools.partial',
            'functools.partial(f, ...) becomes Partial(f, ...)',
            ctx.loc(ch, ch.node))
-  ok = (f'{fparam} is arg_factory.partial' in src and
-        '_maybe_as_arg_factory(arg_factory_cls, arg) for arg in args[1:]' in
-        src and 'for (name, arg) in kwargs.items()' in src.replace(
-            'for name, arg in', 'for (name, arg) in'))
+
+  def _wraps_each(comp, src_text):
+    """comp maps every element of src through _maybe_as_arg_factory."""
+    if not isinstance(comp, (ast.ListComp, ast.GeneratorExp, ast.DictComp)):
+      return False
+    gen = comp.generators[0]
+    if len(comp.generators) != 1 or gen.ifs or unparse(gen.iter) != src_text:
+      return False
+    val = comp.value if isinstance(comp, ast.DictComp) else comp.elt
+    tg = gen.target
+    elem = tg.elts[1] if isinstance(comp, ast.DictComp) and isinstance(
+        tg, ast.Tuple) and len(tg.elts) == 2 else tg
+    keyed = (not isinstance(comp, ast.DictComp)) or unparse(
+        comp.key) == unparse(tg.elts[0])
+    return (keyed and isinstance(val, ast.Call) and unparse(val.func) ==
+            '_maybe_as_arg_factory' and len(val.args) == 2 and
+            unparse(val.args[1]) == unparse(elem))
+
+  br = _branch('arg_factory.partial')
+  c = _make_partial_call(br) if br is not None else None
+  ok = (c is not None and _wraps_each(c.args[2].value, f'{va}[1:]') and
+        _wraps_each(c.keywords[0].value, f'{kw}.items()'))
   rs.check(ok, rule, f'{ch.qualname}:arg_factory.partial',
            'arg_factory.partial maps every argument to an ArgFactory',
            ctx.loc(ch, ch.node))
